@@ -126,11 +126,16 @@ def suite_rates(ctx):
         big = []
     jobs = [(lap, tri, cyc, nu, (n, n, n)) for (lap, tri, cyc, nu) in sel
             for n in sizes]
+    # two non-cubic shapes (3*2^a, 5*2^b factors; more cells in y than in x)
+    # in every tier
+    jobs += [(lap, tri, cyc, nu, shp) for (lap, tri, cyc, nu) in sel
+             for shp in ((12, 16, 10), (16, 24, 40))]
     jobs += [(lap, tri, cyc, nu, (64, 64, 64)) for (lap, tri, cyc, nu) in big]
     if ctx.thorough:
         for i, (lap, tri, cyc, nu) in enumerate(big):
             for shp in NONCUBIC[i % 2::2]:
-                jobs.append((lap, tri, cyc, nu, shp))
+                if (lap, tri, cyc, nu, shp) not in jobs:
+                    jobs.append((lap, tri, cyc, nu, shp))
         jobs.append((False, False, 'F', 2, (128, 128, 128)))
     from concurrent.futures import ProcessPoolExecutor
     with ProcessPoolExecutor(max_workers=min(10, len(jobs))) as ex:
